@@ -633,6 +633,13 @@ fn error_nom_to_h2(error: nom::Err<parser::ParserError>) -> H2Error {
     }
 }
 
+/// Verification hook (only with `--cfg sozu_verif`): the private mapping above,
+/// callable from `mux::verif`.
+#[cfg(sozu_verif)]
+pub(super) fn verif_error_nom_to_h2(error: nom::Err<parser::ParserError>) -> H2Error {
+    error_nom_to_h2(error)
+}
+
 /// Distribute connection-level byte overhead proportionally to a single stream.
 ///
 /// Overhead is distributed in proportion to the bytes this stream transferred
